@@ -322,15 +322,41 @@ func checkHashRegistry(c *Ctx, p *Program) {
 		ast.Inspect(f, func(n ast.Node) bool {
 			switch x := n.(type) {
 			case *ast.ValueSpec:
-				if len(x.Names) == 1 && x.Names[0].Name == "digestSize" && len(x.Values) == 1 {
+				// the table of digest sizes: a package-level literal keyed by the Hash constants whose
+				// entries are integer constants, or records with one integer constant (the size next to
+				// the constructor) — found by what it is, whatever its name
+				if len(x.Names) == 1 && len(x.Values) == 1 {
 					if cl, ok := x.Values[0].(*ast.CompositeLit); ok {
 						for _, e := range cl.Elts {
-							if kv, ok := e.(*ast.KeyValueExpr); ok {
-								if id, ok := kv.Key.(*ast.Ident); ok {
-									if tv, ok := hp.TypesInfo.Types[kv.Value]; ok && tv.Value != nil {
-										v, _ := constant.Int64Val(tv.Value)
-										sizes[id.Name] = v
+							kv, ok := e.(*ast.KeyValueExpr)
+							if !ok {
+								continue
+							}
+							id, ok := kv.Key.(*ast.Ident)
+							if !ok {
+								continue
+							}
+							if k, isConst := hp.TypesInfo.Uses[id].(*types.Const); !isConst || !strings.HasSuffix(k.Type().String(), "hash.Hash") {
+								continue
+							}
+							if tv, ok := hp.TypesInfo.Types[kv.Value]; ok && tv.Value != nil && tv.Value.Kind() == constant.Int {
+								v, _ := constant.Int64Val(tv.Value)
+								sizes[id.Name] = v
+							} else if rec, ok := kv.Value.(*ast.CompositeLit); ok {
+								n := 0
+								var sz int64
+								for _, re := range rec.Elts {
+									val := re
+									if rkv, ok := re.(*ast.KeyValueExpr); ok {
+										val = rkv.Value
 									}
+									if tv, ok := hp.TypesInfo.Types[val]; ok && tv.Value != nil && tv.Value.Kind() == constant.Int {
+										sz, _ = constant.Int64Val(tv.Value)
+										n++
+									}
+								}
+								if n == 1 {
+									sizes[id.Name] = sz
 								}
 							}
 						}
